@@ -197,6 +197,8 @@ class Interp:
             v = self.const_mem[alloc]
         elif alloc[0] == "H":
             v = ("hdrval", alloc[1])
+        elif alloc[0] == "T":
+            v = ("app", "deref", (alloc[1],))
         else:
             raise InterpError("read of unknown allocation %r" % (alloc,))
         for step in path:
@@ -212,10 +214,13 @@ class Interp:
                 raise InterpError("field %r out of range in %r" % (step, v))
         if k == "vec":
             return v[1][step]
-        if k in ("top", "sym", "app"):
+        if k == "top":
             return TOP
-        if k in ("ref", "obj"):
-            # transparent pointer newtypes (Box/Unique/NonNull/GcPtr): projecting yields the pointer itself
+        if k in ("sym", "app"):
+            # keep uninterpreted terms through projections (sibling term agreement, C04/C17)
+            return ("app", ".%s" % step, (v,))
+        if k in ("ref", "obj", "addr"):
+            # transparent pointer newtypes (Box/Unique/NonNull/GcPtr/Cell<*const _>): projecting yields the pointer itself
             return v
         if k == "uninit":
             return UNINIT
@@ -229,6 +234,9 @@ class Interp:
                 raise InterpError("write to constant memory")
             if alloc[0] == "H":
                 raise InterpError("raw write into a GcHeader (only accessors are modelled)")
+            if alloc[0] == "T":
+                st.event("write_term", alloc[1], path, val)
+                return
             st.mem[alloc] = UNINIT
         st.mem[alloc] = self._write(st.mem[alloc], path, val, hint)
 
@@ -253,6 +261,8 @@ class Interp:
             return ("adt", "?", 0, tuple(fields))
         if k in ("ref", "obj"):
             return cur
+        if k == "addr":
+            return val
         raise InterpError("cannot write through %r" % (cur,))
 
     def frame_alloc(self, fr, local):
@@ -313,7 +323,10 @@ class Interp:
                     alloc, path = v[1], v[2]
                 elif v[0] == "obj":
                     alloc, path = ("V", v[1]), ()
-                elif v[0] in ("top", "sym", "app", "valref"):
+                elif v[0] in ("sym", "app", "addr"):
+                    # symbolic pointer: a term place (reads give deref terms, `&*p` gives p back)
+                    alloc, path = ("T", v), ()
+                elif v[0] in ("top", "valref"):
                     # pointer to opaque data (string constants, user values): reads are unknown
                     alloc, path = ("V", "?"), ()
                 else:
@@ -466,6 +479,10 @@ class Interp:
             if with_ov:
                 return adt("(tuple)", 0, (I(r), I(1 if ov else 0)))
             return I(r)
+        if a[0] == "addr" or b[0] == "addr":
+            r = self.addr_binop(base, a, b, tid)
+            if r is not None:
+                return r
         if a == TOP or b == TOP:
             if with_ov:
                 return adt("(tuple)", 0, (TOP, TOP))
@@ -481,6 +498,29 @@ class Interp:
             return adt("(tuple)", 0, (("app", base, (a, b)), ("app", "overflow:" + base, (a, b))))
         return ("app", base, (a, b))
 
+    def addr_binop(self, op, a, b, tid):
+        """('addr', base, low): an integer/pointer base+low where base is a multiple of 16 and 0 <= low < 16."""
+        M = (1 << 64) - 1
+        if a[0] == "addr" and is_int(b):
+            base, low, m = a[1], a[2], b[1] & M
+            if op == "BitAnd":
+                if m < 16:
+                    return I(low & m)
+                if (m | 15) == M:
+                    return ("addr", base, low & m & 15)
+                return TOP
+            if op == "BitOr" and m < 16:
+                return ("addr", base, low | m)
+            if op in ("Eq", "Ne") and m == 0 and False:
+                return None
+        if b[0] == "addr" and is_int(a):
+            if op in ("BitAnd", "BitOr"):
+                return self.addr_binop(op, b, a, tid)
+        if a[0] == "addr" and b[0] == "addr" and op in ("Eq", "Ne"):
+            eq = a == b
+            return I(1 if (eq if op == "Eq" else not eq) else 0)
+        return None
+
     def rvalue(self, st, fr, r):
         k = r["k"]
         if k == "use":
@@ -489,6 +529,8 @@ class Interp:
             alloc, path = self.resolve_place(st, fr, r["p"])
             if alloc[0] == "V":
                 return ("valref", alloc[1])
+            if alloc[0] == "T":
+                return alloc[1] if not path else ("app", "field_addr", (alloc[1], path))
             return ref(alloc, path)
         if k == "cast":
             v = self.operand(st, fr, r["o"])
@@ -526,6 +568,12 @@ class Interp:
                         return ("cmp", inv[v[1]], v[2], v[3])
                 if v[0] == "top":
                     return TOP
+                if is_int(v) and "ty" in r:
+                    bits, signed = self.int_width(r["ty"])
+                    if bits and not signed:
+                        return I(((1 << bits) - 1) ^ v[1])
+                    if bits and signed:
+                        return I(~v[1])
                 return ("app", "Not", (v,))
             if r["op"] == "Neg":
                 if is_int(v) or v[0] == "f":
@@ -552,7 +600,7 @@ class Interp:
             if ak["k"] == "tuple":
                 return adt("(tuple)", 0, ops)
             if ak["k"] == "closure":
-                return adt("closure:" + ak["def"], 0, ops)
+                return adt("closure:" + ak["def"] + "\0" + ak.get("key", ""), 0, ops)
             if ak["k"] == "array":
                 return ("vec", ops)
             if ak["k"] == "rawptr":
@@ -1047,6 +1095,19 @@ class Interp:
             st.mem[("L", f.base, i + 1)] = a
         st.frames.append(f)
         return self.explore(st)
+
+
+def closure_def(v):
+    """def path of a closure value ('adt', 'closure:<def>\0<instance key>', 0, upvars)."""
+    return str(v[1])[len("closure:"):].split("\0")[0]
+
+
+def closure_body_key(prog, v):
+    parts = str(v[1])[len("closure:"):].split("\0")
+    if len(parts) > 1 and parts[1] in prog.bodies:
+        return parts[1]
+    ks = prog.seed_n.get(norm(parts[0]))
+    return ks[0] if ks else None
 
 
 def _freeze(o):
